@@ -81,6 +81,8 @@ Example C18_example :
   channel_open true no_handlers s_x11 0 = Accept (-1) /\
   channel_request_ok true s_exec true = true /\
   global_request true s_x11 true true = (true, Some MSG_REQUEST_SUCCESS) /\
+  channel_open false (handlers_after [EvOther true; EvForward true false]) s_forwarded_tcpip 0
+    = Reject OPEN_FAILED_ADMINISTRATIVELY_PROHIBITED /\
   forward_active [EvForward true true; EvAgent].
 Proof.
   repeat split; try reflexivity.
